@@ -958,3 +958,155 @@ def iter_find_map(eng, c, a, g):
 MODELS_NORM = [(re.compile(r'HashMap::<Url, .*>::entry'), indexmap_entry), (re.compile(r'Entry::<.*Url, .*>::or_insert_with::<.*'), hashmap_entry_or_insert_with),
                (re.compile(r'HashMap::<Url, .*>::insert'), map_insert), (re.compile(r'<.* as Iterator>::find_map::<.*'), iter_find_map),
                (re.compile(r'BTreeSet::<Url>::contains::<.*>'), set_contains)] + MODELS_NORM
+
+# ------------------------------------------------------------------ wider std coverage (so that benign refactorings of the code under test stay decidable)
+def option_filter(eng, c, a, g):
+    o, clo = a[0], a[1]; p = opt_payload(o); s_ = opt_is_some(o)
+    if p is None or z3.is_false(s_): return none()
+    keep = eng.call_closure(clo, [ref_to(p, 'opt-payload')], AND(g, s_))
+    return EnumV(IF(AND(s_, keep), BV(1, 8), BV(0, 8)), o.vars)
+def option_ok_or(eng, c, a, g):
+    o = a[0]; p = opt_payload(o)
+    return EnumV(IF(opt_is_some(o), BV(0, 8), BV(1, 8)), {0: Agg([p]), 1: Agg([a[1]])})
+def option_expect(eng, c, a, g):
+    o = a[0]
+    eng.panics.append((f'expect on None ({c[:40]})', AND(g, NOT(opt_is_some(o))))); return opt_payload(o)
+def option_map_or(eng, c, a, g):
+    o, dflt, clo = a[0], a[1], a[2]; p = opt_payload(o); s_ = opt_is_some(o)
+    if p is None or z3.is_false(s_): return dflt
+    return ite(s_, eng.call_closure(clo, [p], AND(g, s_)), dflt)
+def option_map_or_else(eng, c, a, g):
+    o, dclo, clo = a[0], a[1], a[2]; p = opt_payload(o); s_ = opt_is_some(o)
+    d = eng.call_closure(dclo, [], AND(g, NOT(s_))) if not z3.is_true(s_) else None
+    if p is None or z3.is_false(s_): return d
+    v = eng.call_closure(clo, [p], AND(g, s_))
+    return v if d is None else ite(s_, v, d)
+def option_is_none_or(eng, c, a, g):
+    o, clo = a[0], a[1]; p = opt_payload(o); s_ = opt_is_some(o)
+    if p is None or z3.is_false(s_): return TRUE
+    return OR(NOT(s_), eng.call_closure(clo, [p], AND(g, s_)))
+def option_or(eng, c, a, g): return ite(opt_is_some(a[0]), a[0], a[1])
+def option_and(eng, c, a, g): return ite(opt_is_some(a[0]), a[1], none())
+def option_insert(eng, c, a, g):
+    eng.store(a[0], some(a[1]), g)
+    return Ptr([(cnd, (r, p + (('v', 1), ('f', 0)))) for cnd, (r, p) in a[0].targets])
+def option_replace(eng, c, a, g):
+    old = eng.load(a[0]); eng.store(a[0], some(a[1]), g); return old
+def result_ok(eng, c, a, g):
+    r = a[0]; p = r.vars[0].f[0] if 0 in r.vars and r.vars[0].f else None
+    return opt(r.is_variant(0), p)
+def result_err(eng, c, a, g):
+    r = a[0]; p = r.vars[1].f[0] if 1 in r.vars and r.vars[1].f else None
+    return opt(r.is_variant(1), p)
+def result_is_ok(eng, c, a, g): return deref_val(eng, a[0]).is_variant(0)
+def result_is_err(eng, c, a, g): return deref_val(eng, a[0]).is_variant(1)
+def result_unwrap(eng, c, a, g):
+    r = a[0]
+    eng.panics.append((f'unwrap on Err ({c[:40]})', AND(g, r.is_variant(1))))
+    return r.vars[0].f[0] if 0 in r.vars and r.vars[0].f else None
+def result_and_then(eng, c, a, g):
+    r, clo = a[0], a[1]; ok = r.is_variant(0); p = r.vars[0].f[0] if 0 in r.vars and r.vars[0].f else None
+    if p is None or z3.is_false(ok): return r
+    return ite(ok, eng.call_closure(clo, [p], AND(g, ok)), r)
+def iter_filter(eng, c, a, g):
+    it, clo = a[0], a[1]
+    items = []
+    for av, v in it.items:
+        if v is None or z3.is_false(AND(g, av)): items.append((FALSE, None)); continue
+        items.append((AND(av, eng.call_closure(clo, [ref_to(v, 'item')], AND(g, av))), v))
+    return IterModel(items, it.consumed)
+def iter_find(eng, c, a, g):
+    it = eng.load(a[0]) if isinstance(a[0], Ptr) else a[0]; clo = a[1]
+    res = none(); done = FALSE
+    for av, v in it.remaining():
+        if v is None or z3.is_false(av): continue
+        hit = AND(av, NOT(done), eng.call_closure(clo, [ref_to(v, 'item')], AND(g, av, NOT(done))))
+        res = ite(hit, some(v), res); done = OR(done, hit)
+    return res
+def iter_count(eng, c, a, g):
+    cnt = BV(0, eng.W)
+    for av, v in a[0].remaining(): cnt = IF(av, ADD(cnt, 1), cnt)
+    return cnt
+def iter_for_each(eng, c, a, g):
+    for av, v in a[0].remaining():
+        if v is None or z3.is_false(AND(g, av)): continue
+        eng.call_closure(a[1], [v], AND(g, av))
+    return UNIT
+def iter_enumerate(eng, c, a, g):
+    items, idx = [], BV(0, eng.W)
+    for (av, v), cn in zip(a[0].items, a[0].consumed):
+        items.append((av, Agg([idx, v]) if v is not None else None)); idx = IF(AND(av, NOT(cn)), ADD(idx, 1), idx)
+    return IterModel(items, a[0].consumed)
+def iter_last(eng, c, a, g):
+    res = none()
+    for av, v in a[0].remaining():
+        if v is not None: res = ite(av, some(v), res)
+    return res
+def iter_fold(eng, c, a, g):
+    acc = a[1]
+    for av, v in a[0].remaining():
+        if v is None or z3.is_false(AND(g, av)): continue
+        acc = ite(av, eng.call_closure(a[2], [acc, v], AND(g, av)), acc)
+    return acc
+def vec_extend(eng, c, a, g):
+    it = a[1]
+    if isinstance(it, VecModel): it = vec_into_iter(eng, c, [it], g)
+    if not isinstance(it, IterModel): raise Unsupported(f'extend from {it!r}')
+    for av, v in it.remaining():
+        if v is None or z3.is_false(AND(g, av)): continue
+        vec_push(eng, c, [a[0], v], AND(g, av))
+    return UNIT
+def deque_extend(eng, c, a, g):
+    for av, v in a[1].remaining():
+        if v is None or z3.is_false(AND(g, av)): continue
+        dq_push_back(eng, c, [a[0], v], AND(g, av))
+    return UNIT
+def set_extend(eng, c, a, g):
+    for av, v in a[1].remaining():
+        if v is None or z3.is_false(AND(g, av)): continue
+        set_insert(eng, c, [a[0], v], AND(g, av))
+    return UNIT
+def dq_len(eng, c, a, g): return eng.load(a[0]).len
+def dq_is_empty(eng, c, a, g): return EQ(eng.load(a[0]).len, BV(0, eng.W))
+def map_is_empty(eng, c, a, g): return EQ(map_len(eng, c, a, g), BV(0, eng.W))
+def map_entry_or_insert(eng, c, a, g):
+    e = a[0]
+    class _K:  # closure-less: insert the given value when absent
+        pass
+    u = uid(eng, e.key); refs = []
+    for cnd, (r, p), m in containers(eng, e.mapptr):
+        n = len(m.present); sel = onehot_sel(u, n)
+        nm = MapModel([OR(m.present[i], sel[i]) for i in range(n)], [ite(AND(sel[i], NOT(m.present[i])), a[1], m.vals[i]) for i in range(n)])
+        eng.write((r, p), nm, AND(g, cnd))
+        for i in range(n): refs.append((AND(cnd, sel[i]), (r, p + (('k', i),))))
+    return Ptr(refs)
+def mem_take(eng, c, a, g):
+    old = eng.load(a[0])
+    if isinstance(old, EnumV) and 0 in old.vars and not old.vars[0].f: eng.store(a[0], none(), g)      # Option<T>::default
+    elif z3.is_expr(old) and z3.is_bool(old): eng.store(a[0], FALSE, g)
+    elif isinstance(old, VecModel): eng.store(a[0], VecModel(old.items, BV(0, eng.W)), g)
+    else: raise Unsupported(f'mem::take of {old!r}')
+    return old
+def mem_replace(eng, c, a, g):
+    old = eng.load(a[0]); eng.store(a[0], a[1], g); return old
+def mem_swap(eng, c, a, g):
+    x, y = eng.load(a[0]), eng.load(a[1]); eng.store(a[0], y, g); eng.store(a[1], x, g); return UNIT
+_WIDE = [
+    (R(r'Option::<.*>::filter::<.*'), option_filter), (R(r'Option::<.*>::ok_or::<.*'), option_ok_or), (R(r'Option::<.*>::expect'), option_expect),
+    (R(r'Option::<.*>::map_or::<.*'), option_map_or), (R(r'Option::<.*>::map_or_else::<.*'), option_map_or_else), (R(r'Option::<.*>::is_none_or::<.*'), option_is_none_or),
+    (R(r'Option::<.*>::or'), option_or), (R(r'Option::<.*>::and::<.*'), option_and), (R(r'Option::<.*>::insert'), option_insert), (R(r'Option::<.*>::replace'), option_replace),
+    (R(r'Result::<.*>::ok'), result_ok), (R(r'Result::<.*>::err'), result_err), (R(r'Result::<.*>::is_ok'), result_is_ok), (R(r'Result::<.*>::is_err'), result_is_err),
+    (R(r'Result::<.*>::(unwrap|expect)'), result_unwrap), (R(r'Result::<.*>::and_then::<.*'), result_and_then),
+    (R(r'<.* as Iterator>::filter::<.*'), iter_filter), (R(r'<.* as Iterator>::find::<.*'), iter_find), (R(r'<.* as Iterator>::count'), iter_count),
+    (R(r'<.* as Iterator>::for_each::<.*'), iter_for_each), (R(r'<.* as Iterator>::enumerate'), iter_enumerate), (R(r'<.* as Iterator>::last'), iter_last),
+    (R(r'<.* as Iterator>::fold::<.*'), iter_fold),
+    (R(r'<Vec<.*> as Extend<.*>>::extend::<.*'), vec_extend), (R(r'Vec::<.*>::extend_from_slice'), vec_extend),
+    (R(r'<VecDeque<&Url> as Extend<.*>>::extend::<.*'), deque_extend), (R(r'<HashSet<&?Url> as Extend<.*>>::extend::<.*'), set_extend),
+    (R(r'VecDeque::<&Url>::len'), dq_len), (R(r'VecDeque::<&Url>::is_empty'), dq_is_empty), (R(r'VecDeque::<&Url>::with_capacity'), dq_new),
+    (R(r'BTreeMap::<Url, .*>::is_empty'), map_is_empty), (R(r'BTreeMap::<Url, .*>::(values_mut|iter_mut)'), map_values),
+    (R(r'BTreeMap::<Url, .*>::entry'), indexmap_entry), (R(r'Entry::<.*Url, .*>::or_insert'), map_entry_or_insert),
+    (R(r'take::<.*>'), mem_take), (R(r'replace::<.*>'), mem_replace), (R(r'swap::<.*>'), mem_swap),
+    (R(r'IndexSet::<(T|&?Url)>::is_empty'), lambda e, c, a, g: EQ(e.load(a[0]).len, BV(0, e.W))),
+    (R(r'HashSet::<&?Url>::is_empty'), set_is_empty),
+]
+MODELS_NORM = MODELS_NORM + [(re.compile(norm_path(p.pattern)), f) for p, f in _WIDE]      # appended: specific models keep precedence
